@@ -12,6 +12,7 @@ and at every callback invocation; np.shares_memory between results and arguments
 import copy
 import io
 import contextlib
+import threading
 
 import numpy as np
 
@@ -320,6 +321,9 @@ def generate(rng, prop, tier):
         u = rng.random()
         if u < 0.68 or k == 0:
             ops.append({'op': 'call', 'entry': rng.choice(NAMES) if rng.random() < 0.4 else rng.choice(WEIGHTED), 'argseed': rng.randrange(1 << 30)})
+            if rng.random() < 0.05:
+                # fault: the k-th call of a LAPACK routine inside this library call does not converge
+                ops[-1]['lapack_fail'] = [rng.choice(['svd', 'svd', 'qr', 'lstsq', 'rq']), rng.randint(1, 3)]
             if ops[-1]['entry'] == 'cdf_getter' and rng.random() < 0.7:
                 # a function was handed back: the caller changes the data it was built from and evaluates it again
                 ops.append({'op': 'scribble', 'target': 0, 'how': 'fill', 'last_args': True})
@@ -409,13 +413,23 @@ def execute(sc):
             res = None
             err = None
             runs += 1
+            plan_l = op.get('lapack_fail')
             try:
+                if plan_l:
+                    from engines import history_sim as _hs          # owns the wrappers around the numpy / scipy entry points
+                    _hs.LAPACK_PLAN[threading.get_ident()] = [plan_l[0], plan_l[1], 0]
+                    fired0 = _hs.LAPACK_FIRED[0]
                 with contextlib.redirect_stdout(io.StringIO()):
                     res = call.run()
             except SimAbort:
                 raise
             except Exception as e:
                 err = e
+            finally:
+                if plan_l:
+                    _hs.LAPACK_PLAN.pop(threading.get_ident(), None)
+                    if _hs.LAPACK_FIRED[0] > fired0:
+                        stats['fault.lapack_routine_failed'] = stats.get('fault.lapack_routine_failed', 0) + 1
             covered.add(name)
             stats['calls.' + name] = stats.get('calls.' + name, 0) + 1
             if mon['n']:
